@@ -85,7 +85,7 @@ ShadowCase(x) ==
 Shadow2Cases == { <<"warm", k, br, st>> : k \in 0 .. 6, br \in {"beq", "j"}, st \in {Sw("t1", "a1", 48), Sb("t1", "a1", 33), Sh("t1", "a1", 50)} }
                 \cup { <<"far", k, br, Nop>> : k \in 0 .. 3, br \in {"bnez", "blt", "bgeu"} }
 Shadow2Case(x) ==
-  LET fill == [i \in 1 .. x[2] |-> I("sub", "t2", "t1", "t3", 0, 0)]
+  LET fill == [i \in 1 .. x[2] |-> Nop]   \* fillers must not create register hazards (a renamed WAW is a finding class of its own)
       \* warm: two loads occupy two cores, a dependent add waits for both, a store makes line 128 Modified in one L1
       pre == IF x[1] = "warm" THEN <<Lw("t0", "a0", 0), Lw("t2", "a1", 32), AddI("t2", "t0", "t2"), Sw("t1", "a1", 40)>> \o fill
              ELSE <<Lw("t0", "a0", 0)>> \o fill
